@@ -118,4 +118,18 @@ theorem C09_whole_walk (dir : Bool) (cmd : Bytes) (tmpl : List Bytes) (start : B
       L.Sublist ((visitsN (refCfg c) [] 0 n).map (eventOf dir cmd tmpl start)) :=
   whole_walk_once dir cmd tmpl start c m root g hall hone hwalk
 
+/-- non-vacuity of `C09_whole_walk`: `find t -depth -name a -exec c x{} ;` meets the hypotheses -/
+example :
+    let m : FuModel.Find.Expr.M Prim := .and [.prim (.name [97]), .prim (.exec false true [99] [[120, 123, 125]])]
+    let c : Config := { depthFirst := true }
+    let root : Node Attr := .dir [116] false true { lty := 'd', sty := 'd' } [.leaf [97] .plain { lty := 'f', sty := 'f' }]
+    m.AllP (SoleOnce false [99] [[120, 123, 125]]) ∧ m.weight wT ≤ 1 ∧
+      ((refCfg c).depthFirst = true ∧ ¬ HRootLink (refCfg c) (if c.sorted then sortNode root else root)) ∧
+      (visitsN (refCfg c) [] 0 root).map (eventOf false [99] [[120, 123, 125]] [116]) =
+        [⟨[[99], [120, 116, 47, 97]], none⟩, ⟨[[99], [120, 116]], none⟩] := by
+  intro m c root
+  refine ⟨by simp [m, FuModel.Find.Expr.M.AllP, FuModel.Find.Expr.M.AllP.AllPs, SoleOnce, quiet], by decide, ⟨rfl, ?_⟩, by decide⟩
+  rintro ⟨h, _⟩
+  cases h
+
 end FuModel.Find.Run
